@@ -80,7 +80,7 @@ var curatedInputs = map[string]map[string]rng2{
 	"InstreamFineSediment":        {"reachVolume": {1000, 1e6}, "outflow": {0, 60}},
 	// channelDepositionFraction < 0: remobilisation from the bed (the bed account may run into deficit)
 	"InstreamParticulateNutrient": {"floodplainDepositionFraction": {0, 0.5}, "channelDepositionFraction": {-0.5, 0.5}, "reachVolume": {1000, 1e6}},
-	"InstreamDissolvedNutrientDecay": {"floodplainDepositionFraction": {0, 0.5}, "reachVolume": {1000, 1e6}},
+	"InstreamDissolvedNutrientDecay": {"floodplainDepositionFraction": {0, 0.5}, "reachVolume": {100, 3e5}},
 	"DynamicSednetGully":          {"year": {1990, 2020}},
 	"DynamicSednetGullyAlt":       {"year": {1990, 2020}},
 	"Storage":                     {"rainfall": {0, 20}, "pet": {0, 8}, "inflow": {0, 30}, "demand": {0, 12}, "targetMinimumVolume": {0, 0}, "targetMinimumCapacity": {0, 0}},
